@@ -423,7 +423,9 @@ double ghost_rfi_x;
 double complex _vnacal_rfi(const double *xp, double complex *yp,
 	int n, int m, int *ip_segment, double x)
 {
-    (void)xp; (void)n; (void)m; (void)ip_segment;
+    (void)xp; (void)ip_segment;
+    CHECK(m == (n < VNACAL_MAX_M ? n : VNACAL_MAX_M),
+	    "the interpolation order follows from the parameter's own point count");
     ++ghost_rfi_calls;
     ghost_rfi_x = x;
     return yp[0];
